@@ -97,6 +97,14 @@ class CrashProfile(Profile):
             plan.append({"op": "crashwrite", "cfg": cfg, "sid": s, "how": how, "data": d,
                          "points": "all", "keep": "pick" if keep else None})
             shadow.write(cfg, s, d)
+        # one explored write whose serialised sidecar lands exactly on / next to a block boundary (4096, 8192 ...): the
+        # size of a first, measured write tells the overhead of the writer's serialisation
+        cands = targets(main_cfg)
+        if cands and rng.random() < 0.2:
+            s = rng.choice(cands)
+            plan.append({"op": "write", "cfg": main_cfg, "sid": s, "how": "set", "data": {"blob": "a" * 300}, "measure": True})
+            plan.append({"op": "boundary_crashwrite", "cfg": main_cfg, "sid": s})
+            shadow.write(main_cfg, s, {"blob": "a"})
         # corruption of one sidecar (of an entity that has data)
         withdata = [s for s in shadow.listing(main_cfg) if shadow.data(main_cfg, s) and not shadow.shares_key(main_cfg, s)]
         if withdata:
@@ -107,7 +115,19 @@ class CrashProfile(Profile):
         if i == 0:
             run.scratch["plan"] = self._plan(run)
         plan = run.scratch["plan"]
-        return plan[i] if i < len(plan) else None
+        if i >= len(plan):
+            return None
+        st = plan[i]
+        if st["op"] == "boundary_crashwrite":
+            size = run.scratch.get("measured")
+            target = run.rng.choice([4096 - 1, 4096, 4096 + 1, 8192, 8192 + 1, 3 * 4096 + 1])
+            n = 300 + target - size if isinstance(size, int) and size >= 300 else 0
+            if n < 1:
+                return {"op": "restart"}
+            run.probes["crashwrite_sized_to_a_block_boundary"] += 1
+            return {"op": "crashwrite", "cfg": st["cfg"], "sid": st["sid"], "how": "set", "data": {"blob": "a" * n},
+                    "points": "all", "keep": None, "target": target}
+        return st
 
     # ------------------------------------------------------------------ execution
     def apply(self, run, step):
@@ -120,6 +140,9 @@ class CrashProfile(Profile):
             exists, obs = do_write(run, step["cfg"], step["sid"], step["how"], step["data"])
             if not ((exists and obs is True) or (not exists and X.exc_name(obs) == "SpilException")):
                 run.stats["precondition_unexpected"] += 1
+            if step.get("measure"):
+                mp = run.m.path_of_sid(step["sid"], step["cfg"])
+                run.scratch["measured"] = run.do(X.call("getsize", X.call("data_path", mp))) if mp else -1
         elif op == "restart":
             run.start_epoch()
         elif op == "crashwrite":
